@@ -271,3 +271,542 @@ def run_monitor(pid, ctx, blocks, trace):
         if f:
             f(ctx, k, sc, tr, stats)
     return stats
+
+
+# ================================================================== helpers
+def cells_equal(a, b, fields=("S", "E", "I", "TE", "R", "M", "D", "TH")):
+    return all(a[f] == b[f] for f in fields)
+
+
+def fmt_cell(c):
+    return "S=%d E=%s I=%d TE=%d R=%d M=%s D=%d TH=%d" % (c["S"], c["E"], c["I"], c["TE"], c["R"], c["M"], c["D"], c["TH"])
+
+
+def expected_plan(sc, step, has_soil):
+    """The documented action order of one model step (names as the hooks print
+    them) with the index argument each reports."""
+    import eng_calendar as cal
+    kv = sc.kv
+    steps = sc.steps
+    N = len(steps)
+
+    def fs(freq, n):
+        e = cal.expected_fs(freq if freq != "-" else "-", n, sc.unit, sc.n, steps)
+        return e
+
+    def yearly(m, d):
+        return [any(cal.contains_date(a, b, y, m, d) for y in range(a[0], b[0] + 1)) for a, b in steps]
+    plan = []
+    if has_soil:
+        plan.append(("soil_next_step", step))
+    if sc.use["lethal"]:
+        sched = yearly(int(kv["lethal"][1]), 1)
+        if sched[step]:
+            plan.append(("lethal_temperature", sum(sched[:step])))
+    if sc.use["survival"]:
+        sched = yearly(int(kv["survival"][1]), int(kv["survival"][2]))
+        if sched[step]:
+            plan.append(("survival_rate", sum(sched[:step])))
+    ss, se = int(kv["season"][0]), int(kv["season"][1])
+    a, b = steps[step]
+    if (ss <= a[1] <= se) or (ss <= b[1] <= se):
+        plan += [("generate", -1), ("spread", step), ("step_forward", step)]
+        if sc.use["overpop"]:
+            plan.append(("overpopulation", step))
+        if sc.use["movements"]:
+            plan.append(("movement", None))
+    if sc.use["treatments"]:
+        plan.append(("treatments", step))
+    if sc.use["mortality"]:
+        sched = fs(kv["mortality"][1], int(kv["mortality"][2]))
+        if sched is not None and sched[step]:
+            plan.append(("mortality", step))
+    if sc.use["spreadrates"]:
+        sched = fs(kv["spreadrates"][1], int(kv["spreadrates"][2]))
+        if sched is not None and sched[step]:
+            plan.append(("spread_rate", sum(sched[:step])))
+    if sc.use["quarantine"]:
+        sched = fs(kv["quarantine"][1], int(kv["quarantine"][2]))
+        if sched is not None and sched[step]:
+            plan.append(("quarantine", sum(sched[:step])))
+    return plan
+
+
+# ------------------------------------------------------------------ C09
+def mon_C09(ctx, k, sc, tr, stats):
+    by_step = {}
+    for (step, tag, idx, st) in tr["snaps"]:
+        by_step.setdefault(step, []).append((tag, idx, st))
+    nsteps = int(sc.kv["steps"][0])
+    err = tr["err"]
+    if err and err[0] == "setup":
+        return
+    for step in range(nsteps):
+        got = [(t, i) for (t, i, _) in by_step.get(step, []) if t != "end"]
+        exp = expected_plan(sc, step, sc.use["soils"])
+        stats["steps"] = stats.get("steps", 0) + 1
+        if err and err[0] == step:
+            # the step was aborted by an exception: the actions before it must be a prefix of the plan
+            ok = all(g[0] == e[0] and (e[1] is None or g[1] == e[1]) for g, e in zip(got, exp)) and len(got) <= len(exp)
+            if not ok:
+                ctx.violation("C09.order.before_exception", "step %d ran %s, plan %s" % (step, got, exp), sc.text)
+                return
+            nxt = exp[len(got)][0] if len(got) < len(exp) else "?"
+            if sc.entry == "rasters" and nxt in ("mortality", "spread_rate"):
+                ctx.violation("C09.raster_entry.%s.%s" % (nxt, err[1]),
+                              "raster entry point: scheduled %s in step %d ends in %s" % (nxt, step, err[1]), sc.text)
+            break
+        if err and isinstance(err[0], int) and step > err[0]:
+            break
+        ok = len(got) == len(exp) and all(g[0] == e[0] and (e[1] is None or g[1] == e[1]) for g, e in zip(got, exp))
+        if not ok:
+            ctx.violation("C09.order_or_runs_iff", "step %d ran %s but the enabled, scheduled actions in documented order are %s" % (step, got, exp), sc.text)
+            return
+        # measurements do not change host state
+        prev = None
+        for (t, i, st) in by_step.get(step, []):
+            if t in ("spread_rate", "quarantine") and prev is not None and st["hosts"] != prev["hosts"]:
+                ctx.violation("C09.measurement_changes_state.%s" % t, "step %d: %s changed the host rasters" % (step, t), sc.text)
+                return
+            prev = st
+
+
+# ------------------------------------------------------------------ C10
+def apply_removal(cell, coef, app):
+    c = dict(cell, E=list(cell["E"]), M=list(cell["M"]))
+    s = math.ceil(treated("ratio", coef, c["S"]))
+    e = [math.ceil(treated(app, coef, x)) for x in c["E"]]
+    i = math.ceil(treated(app, coef, c["I"]))
+    m = [math.ceil(treated(app, coef, x)) for x in c["M"]]
+    if s > 0:
+        c["S"] -= s
+    c["E"] = [x - y for x, y in zip(c["E"], e)]
+    c["TE"] -= sum(e)
+    if i > 0:
+        c["M"] = [x - y for x, y in zip(c["M"], m)]
+        c["I"] -= i
+    c["TH"] = c["S"] + sum(c["E"]) + c["I"] + c["R"]
+    return c
+
+
+def apply_pesticide(cell, coef, app):
+    c = dict(cell, E=list(cell["E"]), M=list(cell["M"]))
+    s = math.floor(treated("ratio", coef, c["S"]))
+    e = [math.floor(treated(app, coef, x)) for x in c["E"]]
+    i = math.floor(treated(app, coef, c["I"]))
+    m = [math.floor(treated(app, coef, x)) for x in c["M"]]
+    c["S"] -= s
+    c["E"] = [x - y for x, y in zip(c["E"], e)]
+    c["TE"] -= sum(e)
+    c["I"] -= i
+    c["M"] = [x - y for x, y in zip(c["M"], m)]
+    c["R"] += s + sum(e) + i
+    return c
+
+
+def mon_C10(ctx, k, sc, tr, stats):
+    import copy
+    for prev, step, tag, idx, st in iter_pairs(sc, tr):
+        if tag != "treatments":
+            continue
+        stats["treatment_actions"] = stats.get("treatment_actions", 0) + 1
+        work = copy.deepcopy(prev["hosts"])
+        for h in range(len(work)):
+            suit = prev["suit"][h]
+            for t in sc.treats:
+                if t["start"] == step:
+                    stats["applications"] = stats.get("applications", 0) + 1
+                    for (r, c) in suit:
+                        i = r * sc.cols + c
+                        work[h][i] = (apply_pesticide if t["pest"] else apply_removal)(work[h][i], t["coef"][i], t["app"])
+                elif t["pest"] and t["end"] == step:
+                    stats["pesticide_ends"] = stats.get("pesticide_ends", 0) + 1
+                    for (r, c) in suit:
+                        i = r * sc.cols + c
+                        if t["coef"][i] > 0:
+                            work[h][i] = dict(work[h][i], S=work[h][i]["S"] + work[h][i]["R"], R=0)
+        for h in range(len(work)):
+            for i in range(sc.ncell):
+                if not cells_equal(work[h][i], st["hosts"][h][i]):
+                    kinds = sorted(set(("pesticide" if t["pest"] else "removal") for t in sc.treats if t["start"] == step or (t["pest"] and t["end"] == step))) or ["none_scheduled"]
+                    ctx.violation("C10.share.%s" % "+".join(kinds),
+                                  "step %d host %d cell %d: after treatments %s, documented %s (before: %s)" %
+                                  (step, h, i, fmt_cell(st["hosts"][h][i]), fmt_cell(work[h][i]), fmt_cell(prev["hosts"][h][i])), sc.text)
+                    return
+
+
+# ------------------------------------------------------------------ C11
+def mon_C11(ctx, k, sc, tr, stats):
+    for prev, step, tag, idx, st in iter_pairs(sc, tr):
+        if tag != "mortality":
+            continue
+        stats["mortality_actions"] = stats.get("mortality_actions", 0) + 1
+        for h in range(len(st["hosts"])):
+            if h not in sc.pht:
+                continue
+            _, rate, lag = sc.pht[h]
+            suit = set(prev["suit"][h] and prev["suit"][0])  # the multi-host pool iterates host 0's list
+            for i in range(sc.ncell):
+                p, c = prev["hosts"][h][i], st["hosts"][h][i]
+                m = list(p["M"])
+                dead = 0
+                if ((i // sc.cols, i % sc.cols) in suit) and rate > 0:
+                    n = len(m) - lag
+                    for j in range(max(n, 0)):
+                        if m[j] > 0:
+                            d = m[j] if j == 0 else math.floor(rate * m[j])
+                            m[j] -= d
+                            dead += d
+                exp_m = m[1:] + m[:1] if m else m
+                if c["M"] != exp_m or c["D"] - p["D"] != dead or p["I"] - c["I"] != dead or p["TH"] - c["TH"] != dead:
+                    ctx.violation("C11.cohort_rule", "step %d host %d cell %d (rate %s lag %d): cohorts %s -> %s, documented %s; died %d (documented %d), infected %d -> %d, total hosts %d -> %d" %
+                                  (step, h, i, rate, lag, p["M"], c["M"], exp_m, c["D"] - p["D"], dead, p["I"], c["I"], p["TH"], c["TH"]), sc.text)
+                    return
+                if dead:
+                    stats["dead"] = stats.get("dead", 0) + dead
+                if (c["S"], c["E"], c["R"]) != (p["S"], p["E"], p["R"]):
+                    ctx.violation("C11.other_classes_touched", "step %d host %d cell %d: mortality changed S/E/R" % (step, h, i), sc.text)
+                    return
+
+
+# ------------------------------------------------------------------ C12 (removal rules; establishment rule from the tape)
+def mon_C12(ctx, k, sc, tr, stats):
+    for prev, step, tag, idx, st in iter_pairs(sc, tr):
+        if tag == "lethal_temperature":
+            stats["lethal_actions"] = stats.get("lethal_actions", 0) + 1
+            temps = sc.temps[idx] if idx < len(sc.temps) else None
+            thr = Q(sc.kv["lethal"][2])
+            suit = set(prev["suit"][0])
+            for h in range(len(st["hosts"])):
+                for i in range(sc.ncell):
+                    p, c = prev["hosts"][h][i], st["hosts"][h][i]
+                    cold = temps is not None and ((i // sc.cols, i % sc.cols) in suit) and temps[i] < thr
+                    if cold:
+                        ok = c["I"] == 0 and c["S"] == p["S"] + p["I"] and c["E"] == p["E"] and c["TE"] == p["TE"] and c["R"] == p["R"] and sum(c["M"]) == sum(p["M"]) - min(p["I"], sum(p["M"]))
+                        stats["cold_cells"] = stats.get("cold_cells", 0) + 1
+                    else:
+                        ok = cells_equal(p, c)
+                    if not ok:
+                        ctx.violation("C12.lethal.%s" % ("cold_cell" if cold else "other_cell"),
+                                      "step %d host %d cell %d (%s): %s -> %s" % (step, h, i, "colder than threshold" if cold else "not colder", fmt_cell(p), fmt_cell(c)), sc.text)
+                        return
+        elif tag == "survival_rate":
+            stats["survival_actions"] = stats.get("survival_actions", 0) + 1
+            rates = sc.survs[idx] if idx < len(sc.survs) else None
+            suit = set(prev["suit"][0])
+            for h in range(len(st["hosts"])):
+                for i in range(sc.ncell):
+                    p, c = prev["hosts"][h][i], st["hosts"][h][i]
+                    act = rates is not None and ((i // sc.cols, i % sc.cols) in suit) and rates[i] < 1
+                    if act:
+                        ki, ke = lround(p["I"] * rates[i]), lround(p["TE"] * rates[i])
+                        ok = c["I"] == ki and c["TE"] == ke and sum(c["E"]) == ke and c["S"] == p["S"] + (p["I"] - ki) + (p["TE"] - ke) and c["R"] == p["R"]
+                    else:
+                        ok = cells_equal(p, c)
+                    if not ok:
+                        ctx.violation("C12.survival.%s" % ("rate_lt_1" if act else "other_cell"),
+                                      "step %d host %d cell %d survival rate %s: %s -> %s" % (step, h, i, rates[i] if rates else None, fmt_cell(p), fmt_cell(c)), sc.text)
+                        return
+    # establishment decisions on the tape: established exactly when tester < probability;
+    # deterministic establishment uses tester = 1 - establishment probability
+    det = sc.kv["stoch"][1] == "0"
+    p_det = 1 - Q(sc.kv["estprob"][0])
+    for step, evs in tr["tapes"].items():
+        for ev in evs:
+            if ev.startswith("establish:"):
+                _, t, p, r = ev.split(":")
+                tq, pq = parse_q(t), parse_q(p)
+                stats["establish_events"] = stats.get("establish_events", 0) + 1
+                if (tq < pq) != (r == "1"):
+                    ctx.violation("C12.establish.decision", "tester %s probability %s result %s" % (t, p, r), sc.text)
+                    return
+                if det and tq != p_det:
+                    ctx.violation("C12.establish.deterministic_tester", "deterministic establishment tested %s, documented 1 - %s" % (t, sc.kv["estprob"][0]), sc.text)
+                    return
+                if not (0 <= pq <= 1):
+                    ctx.violation("C12.establish.probability_range", "establishment probability %s outside [0,1]" % p, sc.text)
+                    return
+
+
+def parse_q(s):
+    num, _, den = s.partition("/")
+
+    def pw(t):
+        if "^" in t:
+            a, _, b = t.partition("^")
+            a = a[:-1]  # drop the 2
+            if a.endswith("*"):
+                a = a[:-1]
+            return (int(a) if a else 1) * 2 ** int(b)
+        return int(t)
+    return Fraction(pw(num), pw(den) if den else 1)
+
+
+# ------------------------------------------------------------------ C05
+def mon_C05(ctx, k, sc, tr, stats):
+    if sc.mt != "SEI":
+        return
+    L = sc.latency
+    for prev, step, tag, idx, st in iter_pairs(sc, tr):
+        for h in range(len(st["hosts"])):
+            for i in range(sc.ncell):
+                p, c = prev["hosts"][h][i], st["hosts"][h][i]
+                if tag == "step_forward":
+                    stats["cohort_shifts"] = stats.get("cohort_shifts", 0) + 1
+                    old = p["E"]
+                    if step >= L:
+                        exp_e = old[1:] + [0]
+                        ok = c["E"] == exp_e and c["I"] == p["I"] + old[0] and c["TE"] == p["TE"] - old[0] and c["M"][:-1] == p["M"][:-1] and c["M"][-1] == p["M"][-1] + old[0]
+                    else:
+                        exp_e = old[1:] + old[:1]
+                        ok = c["E"] == exp_e and c["I"] == p["I"] and c["M"] == p["M"] and c["TE"] == p["TE"]
+                    if not ok:
+                        ctx.violation("C05.step_forward.%s" % ("transition" if step >= L else "before_latency"),
+                                      "step %d (latency %d) host %d cell %d: %s -> %s" % (step, L, h, i, fmt_cell(p), fmt_cell(c)), sc.text)
+                        return
+                elif tag == "spread":
+                    # new exposure goes to the youngest cohort only; nobody becomes infected during dispersal
+                    if c["E"][:-1] != p["E"][:-1] or c["E"][-1] < p["E"][-1] or c["I"] != p["I"]:
+                        ctx.violation("C05.exposure_not_youngest", "step %d host %d cell %d: %s -> %s" % (step, h, i, fmt_cell(p), fmt_cell(c)), sc.text)
+                        return
+                elif tag not in ("movement", "end", "overpopulation"):
+                    # no other action increases a cohort, moves hosts between cohort positions, or creates infection
+                    if any(x > y for x, y in zip(c["E"], p["E"])) or c["I"] > p["I"]:
+                        ctx.violation("C05.cohort_or_infected_increase.%s" % tag, "step %d host %d cell %d: %s -> %s" % (step, h, i, fmt_cell(p), fmt_cell(c)), sc.text)
+                        return
+
+
+# ------------------------------------------------------------------ C17
+def mon_C17(ctx, k, sc, tr, stats):
+    thr = Q(sc.kv["overpop"][1])
+    share = Q(sc.kv["overpop"][2])
+    applied_rows = 0
+    for prev, step, tag, idx, st in iter_pairs(sc, tr):
+        if tag == "overpopulation":
+            stats["overpop_actions"] = stats.get("overpop_actions", 0) + 1
+            evs = [e for e in tr["tapes"].get(step, []) if e.startswith("okernel:")]
+            nh = len(st["hosts"])
+            I = [sum(prev["hosts"][h][i]["I"] for h in range(nh)) for i in range(sc.ncell)]
+            S = [sum(prev["hosts"][h][i]["S"] for h in range(nh)) for i in range(sc.ncell)]
+            expI, expS = list(I), list(S)
+            moves, out_exp = [], []
+            leaving_cells = []
+            for (r, c) in prev["suit"][0]:
+                i = r * sc.cols + c
+                if I[i] >= 2 and Fraction(I[i], S[i] + I[i]) >= thr:
+                    leaving_cells.append((r, c))
+            if [tuple(int(x) for x in e.split(":")[1:3]) for e in evs] != leaving_cells:
+                ctx.violation("C17.leaves_iff", "step %d: cells drawing a destination %s, cells meeting the departure rule %s" %
+                              (step, [e.split(":")[1:3] for e in evs], leaving_cells), sc.text)
+                return
+            for e in evs:
+                _, r, c, tr_, tc = e.split(":")
+                i = int(r) * sc.cols + int(c)
+                leaving = min(lround(I[i] * share), I[i])
+                expI[i] -= leaving
+                expS[i] += leaving
+                tr_, tc = int(tr_), int(tc)
+                if tr_ < 0 or tr_ >= sc.rows or tc < 0 or tc >= sc.cols:
+                    out_exp += [(tr_, tc)] * leaving
+                else:
+                    moves.append((tr_ * sc.cols + tc, leaving))
+            for (t, n) in moves:   # all departures are decided before any arrival
+                est = min(n, expS[t])
+                expS[t] -= est
+                expI[t] += est
+                stats["pests_moved"] = stats.get("pests_moved", 0) + est
+            gotI = [sum(st["hosts"][h][i]["I"] for h in range(nh)) for i in range(sc.ncell)]
+            gotS = [sum(st["hosts"][h][i]["S"] for h in range(nh)) for i in range(sc.ncell)]
+            if gotI != expI or gotS != expS:
+                ctx.violation("C17.overpopulation.counts", "step %d: infected %s susceptible %s, documented %s %s" % (step, gotI, gotS, expI, expS), sc.text)
+                return
+            if st["outside"][len(prev["outside"]):] != out_exp:
+                ctx.violation("C17.overpopulation.outside", "step %d: outside dispersers recorded %s, documented %s" % (step, st["outside"][len(prev["outside"]):], out_exp), sc.text)
+                return
+        elif tag == "movement":
+            stats["movement_actions"] = stats.get("movement_actions", 0) + 1
+            rows = []
+            j = applied_rows
+            while j < len(sc.moves) and sc.moves[j][5] == step:
+                rows.append(sc.moves[j])
+                j += 1
+            if idx != j:
+                ctx.violation("C17.movement.cursor", "step %d: cursor %d after the action, rows scheduled up to here %d" % (step, idx, j), sc.text)
+                return
+            applied_rows = j
+            th = [c["TH"] for c in prev["hosts"][0]]
+            suit = list(prev["suit"][0])
+            for (rf, cf, rt, ct, cnt, _) in rows:
+                a, b = rf * sc.cols + cf, rt * sc.cols + ct
+                moved = min(cnt, th[a])
+                if th[b] == 0 and (rt, ct) not in suit:
+                    suit.append((rt, ct))
+                th[a] -= moved
+                th[b] += moved
+                stats["hosts_moved"] = stats.get("hosts_moved", 0) + moved
+            got = [c["TH"] for c in st["hosts"][0]]
+            if got != th:
+                ctx.violation("C17.movement.counts", "step %d rows %s: total hosts %s, documented %s" % (step, rows, got, th), sc.text)
+                return
+            if st["suit"][0] != suit:
+                ctx.violation("C17.movement.suitable", "step %d: suitable cells %s, documented %s" % (step, st["suit"][0], suit), sc.text)
+                return
+            for i in range(sc.ncell):
+                c = st["hosts"][0][i]
+                if c["TH"] != c["S"] + sum(c["E"]) + c["I"] + c["R"] or c["I"] != sum(c["M"]) and prev["hosts"][0][i]["I"] == sum(prev["hosts"][0][i]["M"]) and not rows == [] and False:
+                    ctx.violation("C17.movement.classes", "step %d cell %d: classes do not add up after the move: %s" % (step, i, fmt_cell(c)), sc.text)
+                    return
+
+
+# ------------------------------------------------------------------ C04 / C16 (disperser accounting, competency)
+def competency_of(sc, presence, h):
+    rows = [(tuple(int(x) for x in t[1].split(",")), Q(t[2])) for t in sc.multi if t[0] == "comprow"]
+    if not rows:
+        return Fraction(1)
+    if len(rows) == 2 ** len(rows[0][0]):      # complete table: the matching row (later rows overwrite)
+        found = None
+        for key, comp in rows:
+            if tuple(bool(x) for x in key) == tuple(presence):
+                found = comp
+        return found
+    best = Fraction(0)
+    for key, comp in rows:
+        if not key[h]:
+            continue
+        if comp <= best:
+            continue
+        if all((not key[j]) or presence[j] for j in range(len(key))):
+            best = comp
+    return best
+
+
+def mon_C04(ctx, k, sc, tr, stats, check_competency=False):
+    nh = sc.nhosts
+    gen_st = sc.kv["stoch"][0] == "1"
+    rr = Q(sc.kv["rr"][0])
+    pct = Q(sc.kv["soils"][1])
+    last_gen = None
+    for prev, step, tag, idx, st in iter_pairs(sc, tr):
+        evs = tr["tapes"].get(step, [])
+        if tag == "soil_next_step" and prev["soil"]:
+            if st["soil"] != [cs[1:] + [0] for cs in prev["soil"]]:
+                ctx.violation("C04.soil_ageing", "step %d: soil cohorts %s -> %s" % (step, prev["soil"], st["soil"]), sc.text)
+                return
+        if tag == "generate":
+            last_gen = st
+            stats["generate_actions"] = stats.get("generate_actions", 0) + 1
+            weather = sc.weathers[step % len(sc.weathers)] if sc.use["weather"] and sc.weathers else None
+            gens = {}
+            for e in evs:
+                if e.startswith("generate:"):
+                    _, r, c, lam, n = e.split(":")
+                    gens.setdefault((int(r), int(c)), []).append((parse_q(lam), int(n)))
+            for (r, c) in prev["suit"][0]:
+                i = r * sc.cols + c
+                infected = [prev["hosts"][h][i]["I"] for h in range(nh)]
+                produced = sum(n for _, n in gens.get((r, c), []))
+                if sum(1 for x in infected if x > 0) != len(gens.get((r, c), [])):
+                    ctx.violation("C04.generation_events", "step %d cell %s: %d hosts with infection, %d generation events" % (step, (r, c), sum(1 for x in infected if x > 0), len(gens.get((r, c), []))), sc.text)
+                    return
+                if all(x <= 0 for x in infected) and st["disp"][i] != 0:
+                    ctx.violation("C04.no_infection_no_dispersers", "step %d cell %s without infection has %d dispersers" % (step, (r, c), st["disp"][i]), sc.text)
+                    return
+                if not gen_st:
+                    presence = [prev["hosts"][h][i]["S"] + prev["hosts"][h][i]["I"] != 0 for h in range(nh)]
+                    exp = 0
+                    for h in range(nh):
+                        if infected[h] > 0:
+                            comp = competency_of(sc, presence, h) if (sc.entry == "pools" and sc.pht) else Fraction(1)
+                            if comp is None:
+                                exp = None
+                                break
+                            lam = rr * (weather[i] if weather else 1) * comp
+                            exp += lround(lam * infected[h])
+                            if check_competency:
+                                stats["competency_lookups"] = stats.get("competency_lookups", 0) + 1
+                    if exp is not None and produced != exp:
+                        ctx.violation("C16.competency_or_generation" if check_competency else "C04.deterministic_generation",
+                                      "step %d cell %s: produced %d dispersers, documented round(rate x weather x competency x infected) = %d (infected %s)" % (step, (r, c), produced, exp, infected), sc.text)
+                        return
+                to_soil = lround(pct * produced) if (sc.use["soils"] and produced > 0) else 0
+                if st["disp"][i] != produced - to_soil:
+                    ctx.violation("C04.soil_split", "step %d cell %s: produced %d, dispersing %d, documented soil share %d" % (step, (r, c), produced, st["disp"][i], to_soil), sc.text)
+                    return
+                if sc.use["soils"] and prev["soil"]:
+                    gained = st["soil"][i][-1] - prev["soil"][i][-1]
+                    if not (0 <= gained <= to_soil):
+                        ctx.violation("C04.soil_gain", "step %d cell %s: youngest soil cohort gained %d of %d dispersers sent to the soil" % (step, (r, c), gained, to_soil), sc.text)
+                        return
+        if tag == "spread" and last_gen is not None:
+            stats["spread_actions"] = stats.get("spread_actions", 0) + 1
+            # every disperser is dispatched exactly once: kernel events per origin = dispersers of the origin
+            per_origin, est_per_origin, outside = {}, {}, []
+            soil_est = 0
+            cur_origin = None
+            in_soil = False
+            for e in evs:
+                if e.startswith("kernel:"):
+                    _, r, c, tr_, tc = e.split(":")
+                    cur_origin = (int(r), int(c))
+                    in_soil = False
+                    per_origin[cur_origin] = per_origin.get(cur_origin, 0) + 1
+                    tr_, tc = int(tr_), int(tc)
+                    if tr_ < 0 or tr_ >= sc.rows or tc < 0 or tc >= sc.cols:
+                        outside.append((tr_, tc))
+                elif e.startswith("soil_from:"):
+                    in_soil = True
+                elif e.startswith("establish:") and e.endswith(":1"):
+                    if in_soil:
+                        soil_est += 1
+                    else:
+                        est_per_origin[cur_origin] = est_per_origin.get(cur_origin, 0) + 1
+            for (r, c) in prev["suit"][0]:
+                i = r * sc.cols + c
+                if per_origin.get((r, c), 0) != max(last_gen["disp"][i], 0):
+                    ctx.violation("C04.each_disperser_once", "step %d cell %s: %d dispersers, %d kernel draws" % (step, (r, c), last_gen["disp"][i], per_origin.get((r, c), 0)), sc.text)
+                    return
+            exp_est = [0] * sc.ncell
+            for (r, c), n in est_per_origin.items():
+                exp_est[r * sc.cols + c] = n
+            if st["estab"] != exp_est:
+                ctx.violation("C04.established_count", "step %d: established dispersers %s, establishments on the tape %s" % (step, st["estab"], exp_est), sc.text)
+                return
+            if st["outside"][len(prev["outside"]):] != outside:
+                ctx.violation("C04.outside_recorded", "step %d: outside dispersers %s, kernel results outside %s" % (step, st["outside"][len(prev["outside"]):], outside), sc.text)
+                return
+            dS = sum(prev["hosts"][h][i]["S"] - st["hosts"][h][i]["S"] for h in range(nh) for i in range(sc.ncell))
+            if dS != sum(st["estab"]) + soil_est:
+                ctx.violation("C04.balance", "step %d: %d susceptible hosts consumed, %d established (+%d from soil)" % (step, dS, sum(st["estab"]), soil_est), sc.text)
+                return
+            stats["established"] = stats.get("established", 0) + sum(st["estab"]) + soil_est
+            # each establishment turns one susceptible into one exposed (SEI) / infected (SI) host of the same cell
+            for h in range(nh):
+                for i in range(sc.ncell):
+                    p, c = prev["hosts"][h][i], st["hosts"][h][i]
+                    ds = p["S"] - c["S"]
+                    if sc.mt == "SI":
+                        ok = c["I"] - p["I"] == ds and c["M"][-1] - p["M"][-1] == ds and c["M"][:-1] == p["M"][:-1] and c["E"] == p["E"] if p["M"] else True
+                    else:
+                        ok = c["E"][-1] - p["E"][-1] == ds and c["E"][:-1] == p["E"][:-1] and c["I"] == p["I"] and c["M"] == p["M"] and c["TE"] - p["TE"] == ds
+                    if ds < 0 or not ok:
+                        ctx.violation("C04.establish_reclassifies", "step %d host %d cell %d: %s -> %s" % (step, h, i, fmt_cell(p), fmt_cell(c)), sc.text)
+                        return
+
+
+def mon_C16(ctx, k, sc, tr, stats):
+    if sc.nhosts < 1:
+        return
+    mon_C04(ctx, k, sc, tr, stats, check_competency=True)
+    # a landing disperser goes to at most one host, which must have a susceptible individual:
+    # covered by C04.establish_reclassifies per host; here: pests split among hosts
+    for prev, step, tag, idx, st in iter_pairs(sc, tr):
+        if tag == "overpopulation":
+            for h in range(len(st["hosts"])):
+                for i in range(sc.ncell):
+                    p, c = prev["hosts"][h][i], st["hosts"][h][i]
+                    if c["I"] < 0 or c["S"] < 0:
+                        ctx.violation("C16.split_exceeds_availability", "step %d host %d cell %d: %s -> %s" % (step, h, i, fmt_cell(p), fmt_cell(c)), sc.text)
+                        return
+
+
+MONITORS.update({"C04": mon_C04, "C05": mon_C05, "C09": mon_C09, "C10": mon_C10, "C11": mon_C11, "C12": mon_C12, "C16": mon_C16, "C17": mon_C17})
